@@ -5,12 +5,17 @@
 # disturbed while other work is going on).  Prints the VIOLATION / done lines and the first replay.
 set -u
 P=$1; PATCH=$(readlink -f "$2"); TIER=${3:-quick}
-WT=/tmp/mutest-wt-$$; VC=/tmp/mutest-verif
+WT=/tmp/mutest-wt-$$; VC=/tmp/mutest-verif-${MUTEST_SLOT:-0}
 git -C /repo worktree add -q --detach "$WT" HEAD || exit 2
 ( cd "$WT" && git apply "$PATCH" ) || { echo "patch does not apply"; git -C /repo worktree remove --force "$WT"; exit 2; }
 mkdir -p "$VC"
 rsync -a --delete --exclude '.git' --exclude 'build/replay' --exclude 'evidence' /verif/ "$VC"/
 mkdir -p "$VC/evidence"
-( cd "$VC" && VERIF_REPO="$WT" timeout 3000 ./check "$P" --tier "$TIER" 2>&1 | grep -E "VIOLATION|KNOWN-FINDING|done:|Traceback|Error" | head -12 )
+mkdir -p /tmp/mutest-logs
+LOG=/tmp/mutest-logs/$P-$(echo "$PATCH" | md5sum | cut -c1-8).log
+( cd "$VC" && VERIF_REPO="$WT" timeout 3000 ./check "$P" --tier "$TIER" > "$LOG" 2>&1 )
+echo "log: $LOG ($PATCH)"
+grep -E "^VIOLATION|done:|Traceback" "$LOG" | head -8
+grep -c "^KNOWN-FINDING" "$LOG" | sed 's/^/known-finding lines: /' 
 for f in "$VC"/build/replay/$P-*.txt; do [ -f "$f" ] && { echo "--- $f"; head -25 "$f" | cut -c1-220; break; }; done
 git -C /repo worktree remove --force "$WT"
